@@ -178,6 +178,7 @@ def run(F, ck, tier):
     run_protocols(F, ck)
     # ---------------------------------------------------------------- R04.4
     sponge_typestate(F, ck)
+    invalidate_with_push(F, ck, 'R04.4')
     # ---------------------------------------------------------------- R04.5
     layering(F, ck)
     ck.decided += ['verifier transcripts (native + circuit, PLONK + STARK) absorb every statement and proof field', 'each challenge is squeezed after what it must follow',
@@ -626,6 +627,39 @@ def sponge_typestate(F, ck):
         ck.ob('R04.4', '%s.%s.duplex' % (owner, absorb), uses_in and perm and refill,
               'absorb step: inputs overwrite the state, the permutation is applied, outputs are refilled' if (uses_in and perm and refill) else
               '%s::%s lost part of the duplex step (inputs into state: %s, permutation: %s, output refill: %s)' % (owner, absorb, uses_in, perm, refill), '%s:%d' % (ab.file, ab.line))
+
+
+def invalidate_with_push(F, ck, rule):
+    """wherever a challenger method buffers inputs, the buffered OUTPUTS are invalidated per buffered input: `output_buffer.clear()`
+    sits in the same loop nest as `input_buffer.push(..)`.  A clear hoisted out of the loop also fires for an empty slice, so
+    observe_elements(&[]) would change the next challenge - chunking would matter."""
+    n = 0
+    for fn in sorted(F.fns.values(), key=lambda f: f.qual):
+        if fn.crate != 'plonky2' or not fn.file.endswith('iop/challenger.rs') or fn.body is None or fn.owner not in ('Challenger', 'RecursiveChallenger'):
+            continue
+        clears = [x for m, x in field_ops(fn, 'output_buffer') if m == 'clear']
+        pushes = [x for m, x in field_ops(fn, 'input_buffer') if m in ('push', 'extend', 'extend_from_slice')]
+        if not clears or not pushes:
+            continue
+        par = {}
+        for x in walk(fn.body):
+            for c in kids(x):
+                par[id(c)] = x
+
+        def loops(x):
+            out = []
+            while id(x) in par:
+                x = par[id(x)]
+                if x.get('k') in ('For', 'While', 'Loop', 'Closure'):
+                    out.append(id(x))
+            return out
+        n += 1
+        lp = loops(pushes[0])
+        ok = any(loops(c) == lp for c in clears)
+        ck.ob(rule, 'invalidate-per-input:%s' % fn.qual, ok, 'outputs are invalidated exactly where an input is buffered' if ok else
+              '%s clears output_buffer outside the loop in which it buffers inputs: absorbing an EMPTY slice now discards valid buffered outputs, so the same elements absorbed in a different chunking give different challenges' % fn.qual,
+              '%s:%d' % (fn.file, fn.line))
+    ck.floor(rule, 'challenger methods that buffer inputs and invalidate outputs', n, 2)
 
 
 def layering(F, ck):
